@@ -189,3 +189,58 @@ class Yields:
             else:
                 time.sleep(0)
         return None
+
+
+def fork_crash_points(action, probe, mine=lambda k: True, limit=None):
+    """Fault enumeration in forked children.  A probe child first counts the statements of
+    curtsies code `action()` executes; then, for every statement k, a fresh child (a fork of
+    this process, so whatever `action` initialises lazily is still uninitialised) runs
+    `action()` with a KeyboardInterrupt injected at statement k and afterwards `probe()`,
+    which returns a list of problems.  -> (n_statements, [result dicts])"""
+    import json
+
+    def child(k):
+        r, w = os.pipe()
+        pid = os.fork()
+        if pid == 0:
+            os.close(r)
+            res = {"k": k, "fired": False, "lines": 0, "bad": []}
+            try:
+                fp = Failpoints()
+                fp.install()
+                fp.arm(k if k else None)
+                try:
+                    action()
+                except Inject:
+                    res["fired"] = True
+                except Exception as ex:  # noqa
+                    res["action_raised"] = repr(ex)
+                finally:
+                    fp.disarm()
+                    res["lines"] = fp.count
+                    res["where"] = fp.where
+                    fp.uninstall()
+                res["bad"] = probe()
+            except BaseException as ex:  # noqa
+                res["error"] = repr(ex)
+            try:
+                os.write(w, json.dumps(res).encode())
+            finally:
+                os._exit(0)
+        os.close(w)
+        data = b""
+        while True:
+            d = os.read(r, 65536)
+            if not d:
+                break
+            data += d
+        os.close(r)
+        os.waitpid(pid, 0)
+        return json.loads(data.decode()) if data else {"k": k, "error": "no report from child"}
+    first = child(0)
+    n = first.get("lines", 0)
+    out = [first]
+    for k in range(1, (min(n, limit) if limit else n) + 1):
+        if mine(k):
+            out.append(child(k))
+    return n, out
